@@ -209,6 +209,12 @@ def run(ck):
             forged.append((key, sp, pis, "splice of two valid proofs: fields " + ",".join(str(j) for j in range(26) if m[j]) + " from the second", True))
     ident = bytes([0xC0]) + bytes(47)
     base, bpis = P[("s0", 1)]
+    # the SAME verifier object that has just accepted (proof, pi) is asked about (proof, pi') - verifier state kept
+    # across calls must not widen acceptance
+    forged.append(("ks0", base, bpis, "control: valid proof", False))
+    for pis_ in ([(bpis[0] + 1) % R] + bpis[1:], bpis[:-1], bpis + [0], [], [0] * len(bpis)):
+        forged.append(("ks0", base, pis_, "previously accepted proof offered again with other public inputs: " + ",".join(hx(x)[:8] for x in pis_), True))
+    forged.append(("ks0", base, bpis, "control: valid proof", False))
     for pis in (bpis, [0] * len(bpis), [], [(bpis[0] + 1) % R]):
         forged.append(("ks0", ident * 11 + bytes(480), pis, "degenerate: all-identity commitments, all-zero evaluations", True))
         forged.append(("ks0", ident * 11 + base[528:], pis, "degenerate: all-identity commitments, honest evaluations", True))
